@@ -530,7 +530,13 @@ class dir_archive(archive):
 
     def _rmdir(self, key):
         "remove results subdirectory corresponding to given key"
-        rmtree(self._getdir(key), self=True, ignore_errors=True)
+        _dir = self._getdir(key)
+        # first hide the directory under a 'temporary' name (atomically), so
+        # an entry is never seen while it is only partially removed
+        _tmp = self._getdir(TEMP+hash(random(), 'md5'))
+        try: os.rename(_dir, _tmp)
+        except OSError: _tmp = _dir
+        rmtree(_tmp, self=True, ignore_errors=True)
         return
     def _lsdir(self):
         "get a list of subdirectories in the root directory"
